@@ -31,6 +31,8 @@ def run(ctx):
     ctx.rule(support_sign)
     ctx.rule(config_live)
     ctx.rule(purity)
+    ctx.rule(fc.gabor_supports, "R-C07-gabor-support", ("freq", "time"))
+    ctx.rule(_gabor_pair)
 
 
 def realness(ctx, R="R-C07-realness"):
@@ -100,7 +102,7 @@ def support_sign(ctx, R="R-C07-support-sign"):
                   "offset with max_centered=%s is %s" % (mc, v))
 
 
-def config_live(ctx, R="R-C07-config-live"):
+def config_live(ctx, R="R-C07-config-live", floor=6):
     prog = ctx.prog
     fm = prog.module("filters")
     n = 0
@@ -117,12 +119,17 @@ def config_live(ctx, R="R-C07-config-live"):
         for x in f.body_nodes():
             if isinstance(x, ast.Attribute) and prog.qualify(fm, x, f) == "pydrobert.speech.config.EFFECTIVE_SUPPORT_THRESHOLD":
                 n += 1
+            elif isinstance(x, ast.Name) and isinstance(x.ctx, ast.Load) and (prog.qualify(fm, x, f) or "").startswith("pydrobert.speech.config.") \
+                    and x.id not in f.all_param_names():
+                ctx.bad(R, f, x.id, "`%s` is a name bound by `from ...config import %s` when the module was imported: a threshold changed afterwards "
+                        "(config is documented as tunable at run time) is not seen here, so supports are computed from the stale value"
+                        % (x.id, x.id), "config values are read through the config module at call time")
     for name, vals in fm.assigns.items():
         for v in vals:
             for x in ast.walk(v):
                 if isinstance(x, (ast.Attribute,)) and (prog.qualify(fm, x) or "").startswith("pydrobert.speech.config."):
                     ctx.bad(R, "filters", "%s = %s" % (name, astq.text(v)), "module-level constant %s freezes a config value at import time" % name, module=fm)
-    ctx.floor(R, n, 6)
+    ctx.floor(R, n, floor)
     ctx.ok(R, fm.rel, "%d reads of config.EFFECTIVE_SUPPORT_THRESHOLD, all inside function bodies (call time)" % n)
 
 
@@ -133,3 +140,10 @@ def purity(ctx, R="R-C07-pure"):
         for meth in ("get_impulse_response", "get_frequency_response"):
             f = prog.own_method(c, meth)
             fresh_and_pure(ctx, R, f, "%s.%s" % (name, meth))
+
+
+def _gabor_pair(ctx, R="R-C07-gabor-pair"):
+    """impulse and frequency responses of a Gabor filter are the Fourier pair C exp(-t^2/2 sigma^2 + i xi t) <->
+    C sigma sqrt(2 pi) exp(-sigma^2 (w - xi)^2 / 2) with the same C (unit gain or unit L2 norm)"""
+    from .c05 import gabor_norm
+    gabor_norm(ctx, R)
